@@ -8,7 +8,13 @@ import time
 
 VERIF = os.path.dirname(os.path.dirname(os.path.abspath(__file__)))
 SPEC = os.path.join(VERIF, "spec")
-WORK = os.path.join(VERIF, "work")
+# A "lane" (VERIF_LANE=<name>, VERIF_REPO=<checkout>) runs the same checks against another checkout
+# of the library with private work / harness / evidence directories under /tmp/verif_lanes/<name>:
+# used only while developing (seeded bugs in parallel); the registered commands never set it.
+LANE = os.environ.get("VERIF_LANE", "")
+REPO = os.environ.get("VERIF_REPO", "/repo")
+LANE_DIR = os.path.join("/tmp/verif_lanes", LANE) if LANE else ""
+WORK = os.path.join(LANE_DIR, "work") if LANE else os.path.join(VERIF, "work")
 
 
 class TlcResult:
